@@ -9,6 +9,16 @@ import itertools, json
 import common
 
 ID = "C10"
+MANIFEST = dict(
+    technique="Coq proof (model = Python indexing spec, unbounded) + exhaustive-grid correspondence model/implementation/Python oracle",
+    text="Machine-checked theorems (Coq 8.16, no axioms) that the Gallina transcription of pythonic_index/pythonic_slice, the Stream default "
+         "methods, the accessors and the write-addressing helpers equals Python's indexing/slicing for every list length and every integer "
+         "index/bound, never panics, and that writes address the position reads do. The model is tied to /repo on every run by an exhaustive "
+         "grid (8 kinds x len 0..5 x all small and extreme indices x every surface form) run through both and through an independent Python oracle.",
+    note="Trusted: Coq kernel; hand-written model Seq/Index.v (tie to code is the correspondence run, i.e. differential testing on the grid); "
+         "extraction+OCaml runner; Rust harness; Python oracle. Element reads of the per-kind wrappers (UTF-8 soft decoding, dict indexing) are compared "
+         "by correspondence only. uncons/unsnoc/only are checked against the Python oracle only.",
+    design="6-C10")
 I63 = 2 ** 63
 EXTREMES = [2 ** 31, -2 ** 31, I63 - 1, -(I63 - 1), -I63, I63, -I63 - 1, 2 ** 64, -2 ** 64, 10 ** 30]
 MB = "aé\U0001d11eb"  # 1+2+4+1 bytes
